@@ -79,6 +79,9 @@ def estimate(site, c, g):
     return float(np.ravel(Fn)[0]), float(np.ravel(Xi)[0]), np.asarray(Phi)[:, 0]
 
 
+_UNIT = {}
+
+
 def mac(a, b):
     return float(abs(np.vdot(a, b)) ** 2 / (np.vdot(a, a).real * np.vdot(b, b).real))
 
@@ -95,7 +98,12 @@ def check_case(col, t):
         rep = {"transition": t, "site": site}
         tag = f"{site}[{c['method']}]" if site == "fdd.EFDD_mpe" else site
         col.count()
-        f1, x1, p1 = core_call(col, lambda: estimate(site, c, 1.0), f"{tag}/raised", c, rep)
+        ck = (json.dumps(c, sort_keys=True), site)
+        if ck not in _UNIT:                                     # (lines are sorted: the gains of one configuration are adjacent)
+            if len(_UNIT) > 64:
+                _UNIT.clear()
+            _UNIT[ck] = core_call(col, lambda: estimate(site, c, 1.0), f"{tag}/raised", c, rep)
+        f1, x1, p1 = _UNIT[ck]
         if f1 is None:
             continue
         if not est["same_as_unit_gain"]:
@@ -176,7 +184,7 @@ def run(ctx):
         raise core.MachineryFailure("emitted transition count differs from TLC's")
     lines = sorted(ln for ln in r.transitions if '"Estimate"' in ln)
     ctx.extra["in_claim_configurations"] = r.initial
-    cap = 2500 if quick else 30000
+    cap = 2500 if quick else 15000
     if len(lines) > cap:
         rng = np.random.default_rng(ctx.seed)
         ctx.extra["enumerated_estimates"] = len(lines)
